@@ -144,7 +144,7 @@ def _timestamp(I, ci, dt):
 @model('Utc::now')
 def _now(I, ci):
     w = I.world
-    t = w.fresh_int('now', 0, END_2199 - 1)
+    t = w.fresh_int('now', 0, NOW_MAX[0])
     return Opaque('DateTime', t)
 
 
@@ -171,6 +171,7 @@ def _with_timezone(I, ci, dt, *a):
 
 
 # ------------------------------------------------------------------ validity of arbitrary (also symbolic) strftime strings
+NOW_MAX = [END_2199 - 1]   # harnesses may bound the wall clock (flow: dev timestamps are u32, i.e. before 2106-02-07)
 LENIENT = [False]     # set by harnesses that only ask "does formatting panic?": valid-but-unmodelled output becomes '?'
 _SINGLE = 'ABCDFGHIMPRSTUVWXYZabhcdefgjklmnpqrstuvwxyz+%'
 _NUMERIC = 'CGHIMSUVWYdefgjklmqsuwy'
